@@ -450,4 +450,21 @@ func checkC06(c *core.Ctx) {
 			c.Nontrivial(fmt.Sprintf("beyond32-%d", i))
 		}
 	})
+
+	// the same lengths with nothing but notes: with N >= 2 the track of the
+	// settings stays silent from tick 0 on and its pending delay alone passes 2^32 ticks (round 10, C06-mutR10a:
+	// the saturating sum replaced by a plain one, the end-of-track then sits at the total modulo 2^32)
+	c.Stream("beyond32-silent", c.N(4, 24), func(i int, r *rand.Rand) {
+		var p model.Piece
+		// 17 chords of 263,200..279,619 beats: every delta fits (below 2^28 ticks at 960 ticks a beat), the total
+		// lies between 2^32 and 2^32 + 2^28 ticks, where a wrapped sum is a delta that can be written
+		for j := 0; j < 17; j++ {
+			in := model.Instance{Values: []model.Frac{{Num: uint64(263200 + r.Intn(16420)), Den: 1}}}
+			in.Chord = &model.ChordSpec{Deg: model.SimpleInterval(r, 7), Symbol: []string{"7", "m7", "", "sus4"}[r.Intn(4)]}
+			p.Inst = append(p.Inst, in)
+		}
+		if compareTracks(c, "beyond32-silent", i, p, []int{2, 3, 5}, true) {
+			c.Nontrivial(fmt.Sprintf("beyond32-silent-%d", i))
+		}
+	})
 }
